@@ -234,7 +234,7 @@ void Interpret::interp(ASTNode& n) {
                             main_solver->insertFormula(tr);
                             notify_success();
                         } catch (ApiException const & e) {
-                            notify_formatted(true, e.what());
+                            notify_formatted(true, "%s", e.what());
                         }
                     }
                 } else {
@@ -378,7 +378,7 @@ void Interpret::interp(ASTNode& n) {
             }
         }
     } catch (ApiException const &e) {
-        notify_formatted(true, e.what());
+        notify_formatted(true, "%s", e.what());
     }
 }
 
@@ -656,7 +656,7 @@ bool Interpret::getAssignment() const {
     // Overwrite the trailing space; without any named term there is none and the opening parenthesis must stay
     if (anyName) { ss.seekp(-1, std::ios::cur); }
     ss << ')';
-    notify_formatted(false, ss.str().c_str());
+    notify_formatted(false, "%s", ss.str().c_str());
     return true;
 }
 
@@ -1180,7 +1180,7 @@ int Interpret::interpPipe() {
             // obtain the error string
             char const * err_str = strerror(errno);
             // format the error
-            notify_formatted(true, err_str);
+            notify_formatted(true, "%s", err_str);
             break;
         }
 
